@@ -284,8 +284,9 @@ def real_tag(s):
 
 def real_bp(bp):
     p = FuncBody()
-    for i, f in bp:
-        p = SubBlock(StmtPath(p, i), FIELD[f])
+    for k, (i, f) in enumerate(bp):
+        # both ways of building a path: the constructors and the descending helpers
+        p = SubBlock(StmtPath(p, i), FIELD[f]) if (k + i) % 2 else p.stmt(i).block(FIELD[f])
     return p
 
 def real_sp(p):
@@ -788,7 +789,67 @@ def prov_kept(step, q):
 
 # ---------------------------------------------------------------------------
 
+COV_INCLUDE = ['fpy2/rewrite/*.py', 'fpy2/transform/cursor.py', 'fpy2/transform/path.py', 'fpy2/transform/utils.py',
+               'fpy2/strategies/*.py']
+
+def coverage_summary(cov):
+    """which functions / branches of the aiming and forwarding code the run never executed (coverage.py, branch=True).
+    Module-level lines (imports, `def` lines, docstrings) ran before the measurement started and are left out: the
+    figures are over function bodies only."""
+    import glob as _glob, json as _json
+    fd, out = tempfile.mkstemp(suffix='.json', dir='/var/tmp'); os.close(fd)
+    try:
+        cov.json_report(outfile=out, ignore_errors=True)
+        data = _json.load(open(out))
+    except Exception as e:   # noqa
+        return {'error': f'{type(e).__name__}: {e}'}
+    finally:
+        try: os.remove(out)
+        except OSError: pass
+    files = {os.path.relpath(k, str(REPO)): v for k, v in data.get('files', {}).items()}
+    want = sorted(os.path.relpath(f, str(REPO)) for pat in COV_INCLUDE for f in _glob.glob(str(REPO / pat)))
+    tot_s = cov_s = tot_b = cov_b = 0
+    never, partial, per_file = [], [], {}
+    for f in want:
+        info = files.get(f)
+        if info is None:
+            never.append(f + ' (no function of this file ran)'); continue
+        fs = fc = fb = fcb = 0
+        for fn, r in info.get('functions', {}).items():
+            if fn == '': continue          # module level
+            sm = r['summary']
+            fs += sm['num_statements']; fc += sm['covered_lines']
+            fb += sm.get('num_branches', 0); fcb += sm.get('covered_branches', 0)
+            if sm['num_statements'] and sm['covered_lines'] == 0:
+                never.append(f'{f}::{fn}')
+            elif r.get('missing_lines') or r.get('missing_branches'):
+                partial.append(f'{f}::{fn} lines {r.get("missing_lines", [])[:12]} branches {[tuple(b) for b in r.get("missing_branches", [])[:8]]}')
+        tot_s += fs; cov_s += fc; tot_b += fb; cov_b += fcb
+        per_file[f] = {'statements': fs, 'covered': fc, 'branches': fb, 'covered_branches': fcb,
+                       'percent': round(100.0 * (fc + fcb) / max(1, fs + fb), 1)}
+    return {'scope': COV_INCLUDE, 'function_body_statements': tot_s, 'covered_statements': cov_s, 'branches': tot_b,
+            'covered_branches': cov_b, 'percent_statements': round(100.0 * cov_s / max(1, tot_s), 1),
+            'percent_branches': round(100.0 * cov_b / max(1, tot_b), 1),
+            'percent_combined': round(100.0 * (cov_s + cov_b) / max(1, tot_s + tot_b), 1),
+            'functions_never_executed': never, 'functions_partly_executed': partial, 'per_file': per_file}
+
 def run(rep, tier, seed):
+    cov = None
+    if os.environ.get('C19_COVERAGE', '1' if tier == 'quick' else '0') == '1':
+        try:
+            import coverage
+            cov = coverage.Coverage(branch=True, include=[str(REPO / p) for p in COV_INCLUDE], data_file=None)
+            cov.start()
+        except Exception as e:   # noqa
+            rep.notes.append(f'coverage measurement unavailable: {e}'); cov = None
+    try:
+        _run(rep, tier, seed)
+    finally:
+        if cov is not None:
+            cov.stop()
+            rep.cov['code_coverage'] = coverage_summary(cov)
+
+def _run(rep, tier, seed):
     global _BASE
     R = Prng(seed, 'C19')
     tmp = tempfile.mkdtemp(prefix='c19_', dir='/var/tmp')
